@@ -45,7 +45,7 @@ pub(crate) fn probe_arg(p: *mut u8, n: usize) -> ArgProbe {
 // from_str
 // ---------------------------------------------------------------------------------------
 
-// @harness name=from_str_any hist=yes props=C01,C03,C05,C06,C09 class=U tier=quick big=yes
+// @harness name=from_str_any nodebug=thorough hist=yes props=C01,C03,C05,C06,C09 class=U tier=quick big=yes
 #[kani::proof]
 #[kani::stub(alloc::alloc::alloc, v_alloc)]
 #[kani::stub(alloc::alloc::dealloc, v_dealloc)]
@@ -153,7 +153,7 @@ fn from_static_str_contract(max: usize) {
 // with_capacity / new / from_char / from_bool
 // ---------------------------------------------------------------------------------------
 
-// @harness name=with_capacity_any hist=yes props=C01,C03,C05,C06,C09,C11 class=U tier=quick covers=with_capacity.inline,with_capacity.heap,with_capacity.err_reachable,with_capacity.too_large
+// @harness name=with_capacity_any nodebug=thorough hist=yes props=C01,C03,C05,C06,C09,C11 class=U tier=quick covers=with_capacity.inline,with_capacity.heap,with_capacity.err_reachable,with_capacity.too_large
 #[kani::proof]
 #[kani::stub(alloc::alloc::alloc, v_alloc)]
 #[kani::stub(alloc::alloc::dealloc, v_dealloc)]
@@ -318,7 +318,7 @@ fn view_static() {
     view_contract(any_static(MAX_CAP));
 }
 
-// @harness name=view_inline hist=yes props=C01,C08,C09,C11,C17,C20 class=U tier=quick covers=view.post_reachable
+// @harness name=view_inline nodebug=quick hist=yes props=C01,C08,C09,C11,C17,C20 class=U tier=quick covers=view.post_reachable
 #[kani::proof]
 #[kani::stub(alloc::alloc::alloc, v_alloc)]
 #[kani::stub(alloc::alloc::dealloc, v_dealloc)]
@@ -342,7 +342,7 @@ fn view_reach() {
 // niche: no well-formed value is mistaken for None (C20)
 // ---------------------------------------------------------------------------------------
 
-// @harness name=niche_option props=C20 class=U tier=quick covers=niche.post_reachable
+// @harness name=niche_option nodebug=quick props=C20 class=U tier=quick covers=niche.post_reachable
 #[kani::proof]
 fn niche_option() {
     arm_covers();
